@@ -16,7 +16,7 @@ EXIT_OK, EXIT_VIOLATION, EXIT_UNDECIDED, EXIT_CRASH = 0, 1, 2, 3
 
 class Obligation:
     def __init__(self, oid, fn, sorts, order=None, funcs=(), tier="quick", axioms=(), lemmas=(), bounded=None,
-                 numeric=True, sizes=None, note="", only_clauses=None, skip_clauses=None):
+                 numeric=True, sizes=None, note="", only_clauses=None, skip_clauses=None, allow_empty=False):
         self.id = oid
         self.fn = fn
         self.sorts = list(sorts)
@@ -31,6 +31,7 @@ class Obligation:
         self.note = note
         self.only_clauses = list(only_clauses) if only_clauses else None
         self.skip_clauses = list(skip_clauses or [])
+        self.allow_empty = allow_empty
 
     def keeps(self, clause):
         if clause == "<no-raise>":
@@ -67,7 +68,7 @@ class Registry:
                                        tier=tier or o.tier, axioms=o.axioms, lemmas=o.lemmas, bounded=o.bounded,
                                        numeric=o.numeric, sizes=o.sizes, note=o.note,
                                        only_clauses=only_clauses if only_clauses is not None else o.only_clauses,
-                                       skip_clauses=(skip_clauses or []) + o.skip_clauses))
+                                       skip_clauses=(skip_clauses or []) + o.skip_clauses, allow_empty=True))
 
 
 # ------------------------------------------------------------------ size assignments for the numeric world
@@ -172,6 +173,8 @@ def _worker(args):
         sym = run_symbolic(ob)
         sym["clauses"] = [c for c in sym["clauses"] if ob.keeps(c["clause"])]
         failed = [c for c in sym["clauses"] if not c["ok"]]
+        if ob.allow_empty and sym["status"] == "ok" and not sym["clauses"]:
+            return dict(id=oid, empty=True)
         res = dict(id=oid, sym=sym, num=[], funcs=ob.funcs, axioms=ob.axioms, lemmas=ob.lemmas, bounded=ob.bounded,
                    note=ob.note)
         sym_ok = sym["status"] == "ok" and not failed and sym["clauses"]
@@ -257,6 +260,8 @@ def check_property(prop, tier="quick", seed=0, jobs=None, only=None, write_evide
     solver_time = 0.0
     for r in results:
         oid = r["id"]
+        if r.get("empty"):
+            continue
         if "crash" in r:
             crashes.append((oid, r["crash"]))
             continue
